@@ -6,13 +6,14 @@
 package c02
 
 import (
-	"runtime"
 	"encoding/hex"
 	"fmt"
+	"runtime"
 	"sort"
 	"strings"
 
 	"github.com/nspcc-dev/neo-go/pkg/core/state"
+	"github.com/nspcc-dev/neo-go/pkg/core/transaction"
 	"github.com/nspcc-dev/neo-go/pkg/io"
 
 	"github.com/nspcc-dev/neo-go/pkg/core/block"
@@ -92,6 +93,65 @@ func genCase(t *rapid.T) Case {
 		c.Ops = append(c.Ops, op)
 	}
 	return c
+}
+
+// KnownResetConflictLost: see known_findings.json. A hash named by Conflicts attributes below AND above the reset height
+// has one record per (hash) and per (hash, signer) holding the LATEST height only: removing the blocks above the target
+// cannot bring the earlier height back, the records are deleted and the named transaction becomes acceptable on the
+// reset node while a node that only synchronised to the target refuses it.
+const KnownResetConflictLost = "reset-loses-conflict-record-overwritten-by-removed-block"
+
+// strictKnown switches the exclusion of KnownResetConflictLost off (probe).
+var strictKnown bool
+
+// cmpConflictRecords compares the conflict records of a node that only synchronised to the reset height (want) with
+// those of the reset node (got); removed = the encoded blocks the reset took away.
+func cmpConflictRecords(want, got map[string]string, removed [][]byte, srih bool, o *vt.Obs) error {
+	renamed := map[string]bool{} // hashes named by Conflicts attributes of removed blocks
+	for _, raw := range removed {
+		blk, err := ck.DecodeBlock(raw, srih)
+		if err != nil {
+			return err
+		}
+		for _, tx := range blk.Transactions {
+			for _, a := range tx.GetAttributes(transaction.ConflictsT) {
+				renamed[hex.EncodeToString(a.Value.(*transaction.Conflicts).Hash.BytesBE())] = true
+			}
+		}
+	}
+	if len(renamed) > 0 {
+		o.Label("reset-removes-blocks-with-conflicts-attributes")
+	}
+	keys := map[string]bool{}
+	for k := range want {
+		keys[k] = true
+	}
+	for k := range got {
+		keys[k] = true
+	}
+	var ks []string
+	for k := range keys {
+		ks = append(ks, k)
+	}
+	sort.Strings(ks)
+	excluded := false
+	for _, k := range ks {
+		if want[k] == got[k] {
+			continue
+		}
+		h := k[2:66]
+		_, below := want["01"+h]
+		if below && renamed[h] && !strictKnown && vt.Known(KnownResetConflictLost) {
+			excluded = true
+			continue
+		}
+		return fmt.Errorf("record %s: reset node has %q, the node that only synchronised to the target has %q (hash named by removed blocks: %v, named at or below the target: %v)", k, got[k], want[k], renamed[h], below)
+	}
+	if excluded {
+		o.Excluded()
+		o.Label("excl:" + KnownResetConflictLost)
+	}
+	return nil
 }
 
 // branch is one line of blocks (shared prefixes are copied).
@@ -346,6 +406,17 @@ func checkCase(c Case, o *vt.Obs) error {
 				nbr.raws = append(nbr.raws, prev.raws[h])
 				nbr.dumps = append(nbr.dumps, prev.dumps[h])
 				nbr.roots = append(nbr.roots, prev.roots[h])
+			}
+			// "a completed reset to height h leaves the node indistinguishable from one that only ever synchronised to
+			// h": the conflict records (they decide which transactions named by on-chain Conflicts attributes are
+			// acceptable) of the reset node equal those of the fresh node that got blocks 1..h only.
+			if err := nb.N.BC.VerifPersist(); err != nil {
+				nb.Close()
+				return err
+			}
+			if err := cmpConflictRecords(ck.ConflictRecords(nb.N.Base()), ck.ConflictRecords(n.Base()), prev.raws[target:delivered], c.Chain.SRIH, o); err != nil {
+				nb.Close()
+				return fmt.Errorf("op %d: after the completed reset from height %d to %d the conflict records differ from those of a node that only synchronised to %d: %v", i, delivered, target, target, err)
 			}
 			nb.Deployed = b.Deployed
 			nb.TxHashes = nil
